@@ -62,6 +62,14 @@ func H_edits() {
 	Bs := hlib.B()
 	n := rt.Param("n")
 	O := rt.Bytes("old", n)
+	if rt.HasParam("run") && rt.Param("run") >= 0 {
+		// a short run of equal bytes (otherwise generic position): consecutive windows with the
+		// same rolling hash - the differ's "hash unchanged, skip the lookup" shortcut fires there
+		r := rt.Param("run")
+		for i := r + 1; i < r+1+hlib.B() && i < n; i++ {
+			O[i] = O[r]
+		}
+	}
 	apply := func(src []byte, kind, o, m int, label string) ([]byte, int, bool) {
 		if o > len(src) {
 			return nil, 0, false
@@ -75,7 +83,14 @@ func H_edits() {
 			copy(out[o:], rt.Bytes(label, m))
 			return out, m, true
 		case 1: // insert m bytes at o
-			out := append(clone(src[:o]), rt.Bytes(label, m)...)
+			ins := rt.Bytes(label, m)
+			if rt.HasParam("eqins") && rt.Param("eqins") == 1 {
+				// the inserted bytes are a run of one value: consecutive windows with equal rolling hashes
+				for i := range ins {
+					ins[i] = ins[0]
+				}
+			}
+			out := append(clone(src[:o]), ins...)
 			return append(out, src[o:]...), m, true
 		default: // delete m bytes at o
 			if o+m > len(src) {
@@ -96,7 +111,9 @@ func H_edits() {
 		rt.Reach("end")
 		return
 	}
-	hlib.DistinctSyms(O, N)
+	if !rt.HasParam("sym") || rt.Param("sym") == 0 {
+		hlib.DistinctSyms(O, N)
+	}
 	root := rt.TempDir()
 	(&hlib.Build{Files: []hlib.File{{Path: "f", Data: O}}}).Write(root + "/old")
 	(&hlib.Build{Files: []hlib.File{{Path: "f", Data: N}}}).Write(root + "/new")
